@@ -73,6 +73,11 @@ pub fn library() -> Vec<(&'static str, Option<Vec<Stmt>>)> {
             v
         }))),
         ("nn", Some(wrap("NN", vec![Stmt::Include { name: Expr::s("n_ren"), args: vec![] }, Stmt::Render { name: Expr::s("n_inc"), form: RenderForm::Plain, args: vec![("y".into(), Expr::s("ny"))] }]))),
+        // references to absent / broken partials on a path the partial never takes: using this partial is fine
+        ("p_dead", Some(wrap("X", vec![
+            if_(Cond::Truthy(Expr::Lit(V::Bool(false))), vec![Stmt::Include { name: Expr::s("missing"), args: vec![] }, Stmt::Render { name: Expr::s("broken"), form: RenderForm::Plain, args: vec![] }], None),
+            for_("i", Src::Expr(Expr::var("nothing_here")), vec![Stmt::Include { name: Expr::s("missing"), args: vec![] }]),
+        ]))),
         ("dot.liquid", Some(wrap("D", pr()))),
         ("broken", None),
         // "missing" is deliberately absent
